@@ -338,7 +338,7 @@ PROPS = {
                              search=[('taintops', ['-n', 20000]), ('hist', ['-n', 1500, '-scans', 12]), ('hist', ['-n', 1500, '-scans', 12, '-focus', 'down']), ('hist', ['-n', 32, '-scans', 8, '-focus', 'down', '-slow'])]),
                 aspects=['journal', 'ok', 'time', 'age', 'panic', 'hist:updates'], monitors=['C15'],
                 theorems=['Esc.P.C15_add', 'Esc.P.C15_add_idempotent', 'Esc.P.C15_delete', 'Esc.P.C15_no_restamp', 'Esc.P.C15_history',
-                          'Esc.P.swapRemoveFirst_perm', 'Esc.P.C15_precise_add', 'Esc.P.C15_precise_delete', 'Esc.P.C15_history_stamp', 'Esc.P.C15_delete_success_means_written', 'Esc.P.C15_add_success_means_written', 'Esc.P.C15_scan_no_restamp_in_view', 'Esc.P.C15_removal_lowers_count', 'Esc.P.C15_source_add', 'Esc.P.gen_addTaint_translation_complete'],
+                          'Esc.P.swapRemoveFirst_perm', 'Esc.P.C15_precise_add', 'Esc.P.C15_precise_delete', 'Esc.P.C15_history_stamp', 'Esc.P.C15_delete_success_means_written', 'Esc.P.C15_add_success_means_written', 'Esc.P.C15_scan_no_restamp_in_view', 'Esc.P.C15_removal_lowers_count', 'Esc.P.C15_source_add', 'Esc.P.gen_addTaint_translation_complete', 'Esc.P.C15_source_delete', 'Esc.P.gen_delTaint_translation_complete'],
                 technique='Lean 4 theorem (exact object of every UPDATE relative to the preceding GET; swap-remove preserves the other taints as a multiset; no re-stamp along histories) + differential correspondence on complete UPDATE objects + monitor',
                 level_text='C15_delete_success_means_written / C15_add_success_means_written: success is reported only after an accepted UPDATE when the copy the API server returned needed one. C15_add/C15_delete: the UPDATE object is the fetched object plus exactly the stamped escalator taint (effect or NoSchedule) on an object without one, or minus its first escalator taint, all other fields and taints preserved; '
                            'C15_precise_add / C15_precise_delete: the objects the model writes satisfy the very predicate the monitor evaluates on observed UPDATEs (taints compared as a multiset: the property does not fix their order); C15_add_idempotent: an already tainted node gets no UPDATE; C15_no_restamp/C15_history: no write ever gives an already tainted node a different escalator taint. '
@@ -408,7 +408,7 @@ SOURCE_NOTES = {
     'C11': 'The assembly of the program (cmd/main.go) is run in the built program (stream assemble, hook cmd/verif_hooks.go) against Esc.assemble: assemble_dry, assemble_dry_other_entries_irrelevant; main_wiring (regenerated facts about func main): the controller gets --drymode and the assembled groups, nothing else. Tie B: C01_source_reaper / gen_forceAppend_eq — neither reaper hands anything on in dry mode.',
     'C12': 'Assembly (stream assemble): assemble_cloud_own / assemble_cloud_other_entries_irrelevant — the cloud configuration of a group is made from its own entry; main_wiring.',
     'C13': 'Tie B (util.go): gen_calcPercentUsage_eq — the translated percentage computation is the model\'s; gen_calcPercentUsage_sentinel_both.',
-    'C15': 'C15_scan_no_restamp_in_view: every UPDATE of a scan names a node that carries no escalator taint in that scan\'s view, or is a removal (C15_removal_lowers_count) — no two-step re-stamp inside one scan; monitored as C15.restampBad. Tie B (taint.go AddToBeRemovedTaint, as translated with GET and UPDATE as parameters): C15_source_add — the UPDATE is sent iff the fetched copy carries no escalator taint; the appended taint has the configured effect, NoSchedule if unset.',
+    'C15': 'C15_scan_no_restamp_in_view: every UPDATE of a scan names a node that carries no escalator taint in that scan\'s view, or is a removal (C15_removal_lowers_count) — no two-step re-stamp inside one scan; monitored as C15.restampBad. Tie B (taint.go AddToBeRemovedTaint, as translated with GET and UPDATE as parameters): C15_source_add — the UPDATE is sent iff the fetched copy carries no escalator taint; the appended taint has the configured effect, NoSchedule if unset; C15_source_delete (DeleteToBeRemovedTaint): the UPDATE is sent iff the fetched copy carries the escalator taint, after the pinned swap-delete of the first such taint.',
     'C16': 'Assembly (stream assemble): assemble_groups — the options handed to the controller are those of the file, entry by entry.',
     'C17': 'Tie B (aws.go IncreaseSize): gen_increaseSize_eq; C17_source_dispatch — rejected before any call iff d <= 0 or current + d > max, otherwise exactly d to the fleet path or exactly current + d. Assembly: assemble_ready_timeout.',
     'C19': 'Tie B (aws.go DeleteNodes): gen_deleteGuard_eq; C19_source_guard — refused as a whole iff it would breach the minimum. C19_source_delete_order (scale_down.go TryDeleteNodes, as translated): the Kubernetes DeleteNodes is called iff the cloud call was made and returned no error. forever_stops_on_every_error + stream forever (the real RunForever): a not-in-group error ends the loop.',
